@@ -174,6 +174,8 @@ class Engine:
         self.judge_c13 = judge_c13
         self.aligned = aligned
         self.ghosts = 0                          # proposed names nobody listens for
+        self.accepted: dict = {}                 # SimConn id -> (user, SimConn) of every connection taken as child
+        self.stalled = None                      # the server's transport while it does not read
         self.queues: dict = {}                   # party -> last task
         self.own_speed = 0
         self.direct_fail: dict = {}              # peer -> 'refuse' | 'hang' (one shot)
@@ -362,6 +364,16 @@ class Engine:
                 out.append(l)
         return out
 
+    def accepted_open(self) -> list:
+        """(user, SimConn) of every connection that was taken as child and whose two
+        simulated endpoints are still open (nobody closed it)."""
+        out = []
+        for user, sc in self.accepted.values():
+            if sc.a._lost or sc.b._lost or sc.a._closing or sc.b._closing:
+                continue
+            out.append((user, sc))
+        return out
+
     def role_of_link(self, link) -> str:
         dn = self.dn
         roles = []
@@ -514,6 +526,43 @@ class Engine:
             self.direct_fail[ev['peer']] = ev['how']
         self.abstract.append(f"cfail:{ev['how']}:{self.indirect.get(ev['peer'])}")
 
+    async def _act_stall(self, ev, rec):
+        """The server link stalls: the scripted server stops reading, application
+        traffic (one long private message) fills the simulated socket buffers, so
+        every further write of the client to the server suspends until the server
+        reads again.  The peers' events of ``during`` happen meanwhile."""
+        from aioslsk.protocol.messages import PrivateChatMessage
+        await self._server_ready()
+        self.abstract.append('stall' + ('+during' if ev.get('during') else ''))
+        tr = self.w.server.session_of(ME).writer.transport
+        tr.pause_reading()
+        self.stalled = tr
+        try:
+            self.client.network.queue_server_messages(
+                PrivateChatMessage.Request('nobody', 'x' * int(ev.get('bytes', 400_000))))
+            await settle(0.05)
+            ctr = self.client.network.server_connection._writer.transport
+            rec['client_writes_suspend'] = bool(ctr._wpaused)
+            if ctr._wpaused:
+                self.add_obs('stalls_with_suspended_writes')
+            nested = []
+            for sub in ev.get('during') or []:
+                if self.party_of(sub) == 'server':
+                    raise RuntimeError('server event inside a stall')
+                t = self.apply(dict(sub, during_stall=True))
+                nested.append(t)
+                if self.overlap:
+                    await asyncio.sleep(0.003)
+                else:
+                    await t
+                    await settle(0.4)
+            if nested:
+                await asyncio.gather(*nested, return_exceptions=True)
+                await settle(0.05 if self.overlap else 0.4)
+        finally:
+            self.stalled = None
+            tr.resume_reading()
+
     async def _act_wait(self, ev, rec):
         self.abstract.append('wait')
         await asyncio.sleep(float(ev['t']))
@@ -543,6 +592,8 @@ class Engine:
         # the documents do not say what the child limits are after the session is gone
         self.limits_allowed = None
         self.limits_pending = None
+        # the harness' own proposal history is kept per session (the library's cache is read in any case)
+        self.proposed_processed = set()
         self.w.server.session_of(ME).close('rst')
         sc = self.client.network.server_connection
         for _ in range(400):
@@ -606,6 +657,8 @@ class Engine:
                'children': len(dn.children), 'max': dn._max_children,
                'in_potential_parents': peer.username in dn.potential_parents}
         sc = self.simconn_of(peer.connection)
+        if sc is not None:
+            self.accepted[sc.id] = (peer.username, sc)
         link = self.link_by_simconn(sc)          # may not exist yet: the scripted peer accepts one step later
         rec['connection_requested_by_client'] = bool(
             (sc is not None and sc.src == ME) or (link is not None and self.requested_link(link)))
@@ -672,6 +725,12 @@ class Engine:
         for sc in child_scs:
             if sc is not None:
                 self.ever_children.add(sc.id)
+
+        # (a) a peer taken as child stays a child for as long as its connection is open
+        for user, sc in self.accepted_open():
+            if not any(sc is c for c in child_scs):
+                self.violate('child-dropped-but-connection-open', child=user,
+                             children=[c.username for c in children], max_children=dn._max_children, **base)
 
         # (a) other complete candidates are closed once there is a parent
         if parent is not None:
@@ -808,8 +867,8 @@ def gen_c13_events(rng: random.Random, n_peers: int, length: int) -> list:
     peers = list(DPEERS[:n_peers])
     linked: list = []
     evs: list = []
-    kinds = ['pp', 'in', 'ann', 'disc', 'cfail', 'limits', 'reset', 'sessloss']
-    weights = [17, 16, 32, 12, 4, 9, 5, 5]
+    kinds = ['pp', 'in', 'ann', 'disc', 'cfail', 'limits', 'reset', 'sessloss', 'stall']
+    weights = [17, 16, 32, 12, 4, 9, 5, 5, 4]
 
     def ann(peer):
         level = rng.choice([0, 1, 1, 2, 3, 5])
@@ -827,6 +886,33 @@ def gen_c13_events(rng: random.Random, n_peers: int, length: int) -> list:
         first = rng.choice([9, 10, 12])
         evs += many_proposals(slow, rng.choice([2.0, 3.0, 4.5]), (first, rng.choice([8, 10]), rng.choice([11, 13])))
         linked.append(slow)
+
+    elif length >= 7 and rng.random() < 0.07:
+        # family: child, parent and a silent candidate; while the server link is stalled the parent leaves and the
+        # candidate announces (the writes to the server of both steps suspend)
+        c, p, q = rng.sample(peers, 3)
+        first = [{'e': 'in', 'peer': c}, {'e': 'pp', 'peers': [p]}, ann(p)]
+        if rng.random() < 0.4:
+            first = first[1:] + first[:1]                 # the child joins after the parent is set
+        evs += first + [{'e': 'pp', 'peers': [q]}]
+        during = [{'e': 'disc', 'peer': p, 'how': rng.choice(['close', 'abort'])}, ann(q)]
+        if rng.random() < 0.3:
+            during.append(ann(q))
+        evs.append({'e': 'stall', 'during': during})
+        linked += [c, q]
+    elif length >= 4 and rng.random() < 0.08:
+        # family: the connect to a proposed user fails on both paths, then that user dials in
+        x = rng.choice(peers)
+        how = rng.choice(['refuse', 'refuse', 'hang'])
+        evs.append({'e': 'cfail', 'peer': x, 'how': how, 'indirect': 'cannot'})
+        others = [p for p in peers if p != x]
+        evs.append({'e': 'pp', 'peers': [x] + rng.sample(others, rng.choice([0, 0, 1]))})
+        if how == 'hang':
+            evs.append({'e': 'wait', 't': 11.0})          # the direct attempt gives up after 10 s
+        if rng.random() < 0.4 and total() + 2 <= length:
+            evs.append(ann(rng.choice(others)))
+        evs.append({'e': 'in', 'peer': x})
+        linked.append(x)
 
     while total() < length:
         if not evs and rng.random() < 0.6:
@@ -862,6 +948,24 @@ def gen_c13_events(rng: random.Random, n_peers: int, length: int) -> list:
         elif k == 'reset':
             evs.append({'e': 'reset'})
             linked = []
+        elif k == 'stall':
+            # the server link stalls while the peers act
+            during = []
+            for _ in range(rng.choice([1, 2, 2])):
+                if total() + 1 + len(during) >= length:
+                    break
+                r = rng.random()
+                if r < 0.2:
+                    p = rng.choice(peers)
+                    during.append({'e': 'in', 'peer': p})
+                    if p not in linked:
+                        linked.append(p)
+                elif r < 0.65 and linked:
+                    during.append(ann(rng.choice(linked)))
+                elif linked:
+                    during.append({'e': 'disc', 'peer': rng.choice(linked), 'how': rng.choice(['close', 'abort'])})
+            if during:
+                evs.append({'e': 'stall', 'during': during})
         else:
             ev = {'e': 'sessloss'}
             if rng.random() < 0.5:
@@ -955,6 +1059,28 @@ C13_DIRECTED = [
     many_proposals('p1', 2.0, (10, 11)) + [{'e': 'in', 'peer': 'p1'}],
     # ... that user becomes the parent and then dials in itself
     many_proposals('p1') + [_A('p1', 1), {'e': 'in', 'peer': 'p1'}],
+    # the connect to a proposed user fails on both paths, then that user dials in
+    [{'e': 'cfail', 'peer': 'p1', 'how': 'refuse', 'indirect': 'cannot'}, {'e': 'pp', 'peers': ['p1']},
+     {'e': 'in', 'peer': 'p1'}],
+    [{'e': 'cfail', 'peer': 'p1', 'how': 'hang', 'indirect': 'cannot'}, {'e': 'pp', 'peers': ['p1']},
+     {'e': 'wait', 't': 11.0}, {'e': 'in', 'peer': 'p1'}],
+    [{'e': 'cfail', 'peer': 'p1', 'how': 'refuse', 'indirect': 'cannot'}, {'e': 'pp', 'peers': ['p1', 'p2']},
+     _A('p2', 1), {'e': 'in', 'peer': 'p1'}],
+    # the child limit goes down below the number of children
+    [_L(4), {'e': 'in', 'peer': 'p1'}, {'e': 'in', 'peer': 'p2'}, {'e': 'in', 'peer': 'p3'}, _L(2)],
+    [{'e': 'in', 'peer': 'p1'}, {'e': 'in', 'peer': 'p2'}, _L(0)],
+    [{'e': 'in', 'peer': 'p1'}, {'e': 'in', 'peer': 'p2'}, _L(2), {'e': 'pp', 'peers': ['p3']}, _A('p3', 2)],
+    # the server link stalls (writes to the server suspend) while the tree changes
+    [{'e': 'in', 'peer': 'p3'}, {'e': 'pp', 'peers': ['p1']}, _A('p1', 1), {'e': 'pp', 'peers': ['p2']},
+     {'e': 'stall', 'during': [{'e': 'disc', 'peer': 'p1', 'how': 'close'}, _A('p2', 2, root='rootB')]}],
+    [{'e': 'in', 'peer': 'p3'}, {'e': 'pp', 'peers': ['p1']}, _A('p1', 1), {'e': 'pp', 'peers': ['p2']},
+     {'e': 'stall', 'during': [{'e': 'disc', 'peer': 'p1', 'how': 'abort'}, _A('p2', 0, order='l')]}],
+    [{'e': 'in', 'peer': 'p3'}, {'e': 'pp', 'peers': ['p1']}, _A('p1', 1),
+     {'e': 'stall', 'during': [_A('p1', 3, order='l'), _A('p1', 3, root='rootB', order='r')]}],
+    [{'e': 'pp', 'peers': ['p1']}, _A('p1', 1), {'e': 'stall', 'during': [{'e': 'in', 'peer': 'p2'},
+                                                                          {'e': 'disc', 'peer': 'p1', 'how': 'close'}]}],
+    [{'e': 'in', 'peer': 'p3'}, {'e': 'pp', 'peers': ['p1']},
+     {'e': 'stall', 'during': [_A('p1', 1), {'e': 'disc', 'peer': 'p1', 'how': 'close'}]}],
 ]
 
 
@@ -984,6 +1110,8 @@ def expand_c13(params: dict) -> dict:
     for e in cfg['events']:
         if e['e'] == 'cfail' and e['how'] == 'slow':
             cfg['indirect'][e['peer']] = 'ignore'     # else the pierced connection is there long before
+        elif e['e'] == 'cfail' and e.get('indirect'):
+            cfg['indirect'][e['peer']] = e['indirect']
     # burst structure and gaps of the overlapping half
     bursts, gaps = [], []
     i = 0
@@ -1217,7 +1345,11 @@ def gen_c14(rng: random.Random) -> dict:
         # membership changes between requests
         for _ in range(rng.choice([0, 1, 1, 2])):
             r = rng.random()
-            if r < 0.35 and state['children']:
+            if len(state['children']) >= 2 and rng.random() < 0.2:
+                # the server lowers the child limit below the number of children (they stay children)
+                mn, ratio, speed = rng.choice([LIMITS[2], LIMITS[2], LIMITS[1], LIMITS[0]])
+                steps.append({'e': 'limits', 'min': mn, 'ratio': ratio, 'speed': speed})
+            elif r < 0.35 and state['children']:
                 c = rng.choice(state['children'])
                 state['children'].remove(c)
                 state['free'].append(c)
@@ -1379,6 +1511,16 @@ def run_c14_case(res: dict, params: dict):
                 if counted_as_child:
                     add('candidate_links_in_children_list', len(counted_as_child))
                 k_ids = {l.conn.id for l in K}
+                # ground truth: a connection that was taken as child and that nobody closed is still a child's
+                dropped_ids = set()
+                for _user, sc in eng.accepted_open():
+                    l = eng.link_by_simconn(sc)
+                    if l is not None and sc.id not in k_ids and not eng.requested_link(l):
+                        K.append(l)
+                        k_ids.add(sc.id)
+                        dropped_ids.add(sc.id)
+                if dropped_ids:
+                    add('open_child_links_missing_from_children_list', len(dropped_ids))
                 for l in K:
                     eng.ever_children.add(l.conn.id)
                 leaver = st.get('leaver')
@@ -1421,6 +1563,7 @@ def run_c14_case(res: dict, params: dict):
                 await eng.drain()
                 await settle(1.0)
                 k_after = {l.conn.id for l in eng.child_links() if not eng.requested_link(l)}
+                k_after |= {sc.id for _u, sc in eng.accepted_open() if sc.id in dropped_ids}
                 same_parent = eng.parent_link() is plink
                 by_ticket = {r['ticket']: r for r in reqs}
                 # frames that arrived on every link of every scripted peer since the burst began
@@ -1470,7 +1613,8 @@ def run_c14_case(res: dict, params: dict):
                                     violate(f'forward:duplicate:{carrier}', child=l.peer.name, copies=n, **info)
                                 continue                     # closing at that instant: 0 or 1 copies
                             if n == 0 and l.conn.id in k_after and same_parent and not unspecified_forward:
-                                violate('forward:missing:while-a-child-closes' if leaver_links
+                                violate('forward:missing:child-dropped-without-closing' if l.conn.id in dropped_ids
+                                        else 'forward:missing:while-a-child-closes' if leaver_links
                                         else f'forward:missing:{carrier}', child=l.peer.name, **info)
                             elif n > 1:
                                 violate(f'forward:duplicate:{carrier}', child=l.peer.name, copies=n, **info)
